@@ -1,4 +1,4 @@
-import DoltVerif.Lemmas.Puller
+import DoltVerif.Lemmas.PullerSys
 /-!
 C35 — Push, pull, fetch and clone transfer complete and consistent data.
 
@@ -70,6 +70,142 @@ theorem pull_passes_refcheck {src dst : Store} {targets : List Addr} {files : Li
   rw [has_append]
   rcases o2 p hp r hr with h | h <;> simp [h]
 
+/-! ### Interleaved transfers: any schedule, any interruption
+
+`run s sched` lets the transfers of `s` take atomic steps in the order `sched` dictates; a `true`
+flag interrupts the transfer at that point (it stops for good).  Every prefix of every transfer
+is some `sched`, so a statement about all `sched` is a statement about all interruption points.
+`Inv U s`: the destination is a closed partial view of the content-addressed universe `U`, its
+refs resolve, and each transfer's private plan/check data is consistent (initially: no plan).
+-/
+
+theorem run_ok {U : Addr → Chunk} : ∀ (sched : List (Nat × Bool)) (s : System), Inv U s →
+    Inv U (run s sched) ∧
+    (∃ e, (run s sched).dest.chunks = s.dest.chunks ++ e) ∧
+    (∀ p ∈ (run s sched).dest.refs, p ∈ s.dest.refs ∨ ∃ x ∈ s.xfers, p ∈ x.updates) ∧
+    ((∀ x ∈ s.xfers, x.force = false) → ∀ n h, head s.dest n = some h →
+      ∃ h', head (run s sched).dest n = some h' ∧ Anc (run s sched).dest.chunks h h') := by
+  intro sched
+  induction sched with
+  | nil =>
+    intro s hi
+    exact ⟨hi, ⟨[], by simp [run]⟩, fun p hp => .inl hp, fun _ n h hh => ⟨h, hh, .refl _⟩⟩
+  | cons a sched ih =>
+    intro s hi
+    obtain ⟨i, f⟩ := a
+    have h1 := sysStep_ok hi i f
+    obtain ⟨r1, r2, r3, r4⟩ := ih (sysStep s i f) h1.inv
+    simp only [run]
+    refine ⟨r1, ?_, ?_, ?_⟩
+    · obtain ⟨e1, he1⟩ := h1.grows
+      obtain ⟨e2, he2⟩ := r2
+      exact ⟨e1 ++ e2, by rw [he2, he1, List.append_assoc]⟩
+    · intro p hp
+      rcases r3 p hp with h | h
+      · exact h1.prov p h
+      · exact .inr (h1.upd p h)
+    · intro hall n h hh
+      obtain ⟨h', hh', ha⟩ := h1.mono hall n h hh
+      obtain ⟨h'', hh'', ha'⟩ := r4 (h1.force hall) n h' hh'
+      obtain ⟨e2, he2⟩ := r2
+      refine ⟨h'', hh'', ?_⟩
+      have : Anc (run (sysStep s i f) sched).dest.chunks h h' := by rw [he2]; exact ha.mono_append
+      exact this.trans ha'
+
+theorem run_append (s : System) (a b : List (Nat × Bool)) : run s (a ++ b) = run (run s a) b := by
+  induction a generalizing s with
+  | nil => rfl
+  | cons x a ih => obtain ⟨i, f⟩ := x; simp only [List.cons_append, run]; exact ih _
+
+/-- **ref_after_data** — in EVERY state any schedule of transfer steps and interruptions can reach,
+every destination ref (a) is an old ref or one of the transfers' targets, (b) resolves, and
+(c) has its whole closure present: an interrupted transfer never leaves a dangling ref. -/
+theorem ref_after_data {U : Addr → Chunk} {s : System} (hi : Inv U s) (sched : List (Nat × Bool)) :
+    ∀ p ∈ (run s sched).dest.refs,
+      (p ∈ s.dest.refs ∨ ∃ x ∈ s.xfers, p ∈ x.updates) ∧
+      has (run s sched).dest.chunks p.2 = true ∧
+      ∀ b, Reach (run s sched).dest.chunks p.2 b → has (run s sched).dest.chunks b = true := by
+  obtain ⟨r1, _, r3, _⟩ := run_ok sched s hi
+  intro p hp
+  have hh := r1.dinv.refsOk p hp
+  exact ⟨r3 p hp, hh, fun b hb => complete_of_closed r1.dinv.closed hh hb⟩
+
+/-- the destination never loses a chunk, and what it holds stays the universe's value -/
+theorem dest_monotone {U : Addr → Chunk} {s : System} (hi : Inv U s) (sched : List (Nat × Bool)) :
+    (∀ a c, get s.dest.chunks a = some c → get (run s sched).dest.chunks a = some c) ∧
+    Sub U (run s sched).dest.chunks := by
+  obtain ⟨r1, ⟨e, he⟩, _, _⟩ := run_ok sched s hi
+  exact ⟨fun a c h => by rw [he]; exact get_mono_append h, r1.dinv.sub⟩
+
+/-- **ff_push_monotone** — with fast-forward-only transfers, whatever the interleaving and
+wherever they are interrupted, a branch that had head `h` still exists and its head has `h` among
+its ancestors: a non-forced push never removes commits from a remote branch. -/
+theorem ff_push_monotone {U : Addr → Chunk} {s : System} (hi : Inv U s)
+    (hff : ∀ x ∈ s.xfers, x.force = false) (sched : List (Nat × Bool)) (n : Name) (h : Addr)
+    (hh : head s.dest n = some h) :
+    ∃ h', head (run s sched).dest n = some h' ∧ Anc (run s sched).dest.chunks h h' :=
+  (run_ok sched s hi).2.2.2 hff n h hh
+
+theorem run_all_ff {U : Addr → Chunk} {s : System} (hi : Inv U s)
+    (hff : ∀ x ∈ s.xfers, x.force = false) (sched : List (Nat × Bool)) :
+    ∀ x ∈ (run s sched).xfers, x.force = false := by
+  induction sched generalizing s with
+  | nil => exact hff
+  | cons a sched ih =>
+    obtain ⟨i, f⟩ := a
+    exact ih (sysStep_ok hi i f).inv ((sysStep_ok hi i f).force hff)
+
+/-- **concurrent_push_one_wins** (general form) — if two commits were both, at some time, the head
+of the same branch under fast-forward-only pushes, the earlier one is an ancestor of the later:
+two divergent pushes cannot both land. -/
+theorem concurrent_push_one_wins {U : Addr → Chunk} {s : System} (hi : Inv U s)
+    (hff : ∀ x ∈ s.xfers, x.force = false) (sched1 sched2 : List (Nat × Bool)) (n : Name) (t1 t2 : Addr)
+    (h1 : head (run s sched1).dest n = some t1)
+    (h2 : head (run s (sched1 ++ sched2)).dest n = some t2) :
+    Anc (run s (sched1 ++ sched2)).dest.chunks t1 t2 := by
+  have r1 := (run_ok sched1 s hi).1
+  have hff1 := run_all_ff hi hff sched1
+  obtain ⟨h', hh', ha⟩ := ff_push_monotone r1 hff1 sched2 n t1 h1
+  rw [run_append] at h2 ⊢
+  rw [h2] at hh'
+  exact Option.some.inj hh' ▸ ha
+
+/-- **concurrent_push_one_wins** (two-pusher form) — two fast-forward pushes that both read the
+same old head `h`: once the first compare-and-swap has installed `t1 ≠ h`, the second fails with
+ErrMergeNeeded (it must re-read, and then `t1` has to be an ancestor of its target). -/
+theorem second_cas_fails {d d1 : Dest} {n : Name} {h t1 t2 : Addr}
+    (h1 : ffCas d n (some h) t1 = .ok d1) (hne : t1 ≠ h) :
+    ffCas d1 n (some h) t2 = .error .mergeNeeded := by
+  unfold ffCas at h1
+  split at h1
+  · simp at h1
+  · split at h1
+    · rename_i heq; simp at heq; exact absurd heq.symm hne
+    · simp only [Except.ok.injEq] at h1
+      subst h1
+      unfold ffCas
+      have : head { d with refs := setRef d.refs n t1, rootSet := true } n = some t1 := by
+        simp [head, lookup_setRef_same]
+      simp [this, hne]
+
+/-- nothing is visible at the destination before the single AddTableFilesToManifest: a transfer
+interrupted while uploading table files leaves the destination's chunk map exactly as it was. -/
+theorem upload_invisible {U : Addr → Chunk} {d d' : Dest} {x x' : Xfer} {f : Bool}
+    (hd : DInv U d) (hx : XInv U d x) (h : xstep d x f = (d', x'))
+    (hup : ∀ fs k, x.phase = .planned fs k → k < fs.length) : d'.chunks = d.chunks :=
+  (xstep_ok hd hx h).invisible hup
+
+/-- a fresh system (no transfer has started) over a well-formed destination satisfies `Inv` -/
+theorem inv_init {U : Addr → Chunk} {d : Dest} {xs : List Xfer} (hd : DInv U d)
+    (hx : ∀ x ∈ xs, Sub U x.src ∧ x.phase = .init) : Inv U { dest := d, xfers := xs } := by
+  refine ⟨hd, ?_⟩
+  intro x hxm
+  obtain ⟨h1, h2⟩ := hx x hxm
+  refine ⟨h1, ?_, ?_, ?_⟩
+  · intro fs k hk; rw [h2] at hk; simp at hk
+  · intro h0 n t rest hk; rw [h2] at hk; simp at hk
+  · intro rest hk; rw [h2] at hk; simp at hk
+
 /-! #### non-vacuity and the forced hypothesis -/
 
 private def c (refs : List Addr) (parents : List Addr := []) : Chunk := { data := 0, refs := refs, parents := parents }
@@ -93,5 +229,42 @@ theorem closed_needed :
     agreeB_sound (by decide), by rfl, ?_, by decide⟩
   exact .step (c := c [3] [3]) (r := 3) (by decide) (by simp [c])
     (.step (c := c [4]) (r := 4) (by decide) (by simp [c]) (.refl 4))
+
+/-! #### a concrete two-pusher system (hypotheses of the run theorems are satisfiable, and the
+conclusions are not trivially true: one pusher wins, the other gets ErrMergeNeeded) -/
+
+private def U0 : Addr → Chunk
+  | 1 => c [2, 3] [3] | 2 => c [4] | 3 => c [4] | 4 => c [] | 5 => c [3, 6] [3] | 6 => c [] | _ => c []
+
+/-- remote: branch 7 at commit 3; pusher 0 pushes commit 1, pusher 1 pushes commit 5 (both children of 3). -/
+private def sys0 : System :=
+  { dest := { chunks := exDst, refs := [(7, 3)], rootSet := true, pending := [] },
+    xfers := [
+      { src := exSrc, updates := [(7, 1)], force := false, fileSz := 0, phase := .init },
+      { src := [(5, c [3, 6] [3]), (6, c []), (3, c [4]), (4, c [])], updates := [(7, 5)], force := false, fileSz := 0, phase := .init }] }
+
+private theorem sys0_inv : Inv U0 sys0 :=
+  inv_init ⟨subB_sound (by decide), closedB_sound (by decide), by decide⟩
+    (by
+      intro x hx
+      simp only [sys0, List.mem_cons, List.not_mem_nil, or_false] at hx
+      rcases hx with rfl | rfl
+      · exact ⟨subB_sound (by decide), rfl⟩
+      · exact ⟨subB_sound (by decide), rfl⟩)
+
+/-- both run up to their ancestor check against head 3, then pusher 0's CAS, then pusher 1's -/
+private def schedRace : List (Nat × Bool) :=
+  [(0, false), (0, false), (0, false), (0, false), (0, false), (0, false),
+   (1, false), (1, false), (1, false), (1, false), (1, false), (1, false),
+   (0, false), (1, false), (0, false), (1, false)]
+
+example : (run sys0 schedRace).dest.refs = [(7, 1)] := by rfl
+example : ((run sys0 schedRace).xfers.map (fun x => match x.phase with
+    | .done => 1 | .failed .mergeNeeded => 2 | _ => 0)) = [1, 2] := by rfl
+example : has (run sys0 schedRace).dest.chunks 5 = true := by rfl  -- the loser's data arrived, its ref did not
+example : ∃ h', head (run sys0 schedRace).dest 7 = some h' ∧ Anc (run sys0 schedRace).dest.chunks 3 h' :=
+  ff_push_monotone sys0_inv (by decide) schedRace 7 3 rfl
+/-- interrupted after the uploads, before AddTableFilesToManifest: nothing visible changed -/
+example : (run sys0 [(0, false), (0, false), (0, false), (0, false), (0, true)]).dest.chunks = exDst := by rfl
 
 end DoltVerif.C35
